@@ -5,13 +5,15 @@
 set -u
 V="$(cd "$(dirname "$0")" && pwd)"   # normally /verif; a snapshot of it works too
 export VERIF_DIR="$V"
+R="${VERIF_REPO:-/repo}"   # the tree under test (normally /repo; tools/seeded.sh points a private copy of /verif at a scratch worktree)
 export GOFLAGS=-mod=mod GOPROXY=off GOSUMDB=off GOTOOLCHAIN=local GONOSUMDB=* GONOSUMCHECK=1
 export SOURCE_DATE_EPOCH=1700000000
 cd "$V/mc" || exit 2
 mkdir -p "$V/bin" "$V/evidence" "$V/replays"
 build() {
   # the harness links /repo (replace directive) so this rebuilds from /repo's working tree
-  cp /repo/go.sum go.sum 2>/dev/null
+  cp "$R/go.sum" go.sum 2>/dev/null
+  if [ "$R" != /repo ]; then go mod edit -replace "github.com/jessevdk/go-flags=$R"; fi
   if ! go build -o $V/bin/mc ./cmd/mc 2>$V/bin/build.log; then
     # the harness itself builds on the unchanged tree; a failure here comes from the tree under test
     cat $V/bin/build.log >&2
@@ -22,7 +24,7 @@ build() {
 # C15: instrument every map iteration of /repo's current sources and build the explorer against that overlay
 build15() {
   rm -rf $V/bin/c15overlay
-  if ! (cd /repo && $V/bin/maporder $V/bin/c15overlay) >$V/bin/maporder.log 2>&1; then
+  if ! (cd "$R" && $V/bin/maporder $V/bin/c15overlay) >$V/bin/maporder.log 2>&1; then
     cat $V/bin/maporder.log >&2
     return 1
   fi
